@@ -144,16 +144,13 @@ def run(ck):
         ck.hist("commits_acknowledged", len(store.acked))
         done1 = completed_offsets(LL, CL, events, drv.trace)
         c = store.committed
-        # at-least-once across the crash: everything delivered in life 1 at or below the committed offset was processed
-        if c is not None and store.acked:
-            late = [x for x in drv.delivered if x <= c and x not in done1]
-            # deliveries of an EARLIER start position below a later forward restart are the application's business;
-            # only report when the unprocessed message was delivered after the last change of start position
-            steps_, _ = CL.split_steps(drv.trace)
-            cur = C02.delivered_since_epoch(CL, events, steps_, cfg.reset)
-            late = [x for x in late if x in cur]
-            acked_in_epoch = [a for a in store.acked if a in done1 and a in cur]
-            if late and acked_in_epoch and c in cur:
+        # at-least-once across the crash: if the committed offset was acknowledged since the last change of start position,
+        # everything delivered since then at or below it was processed before the crash
+        steps_, _ = CL.split_steps(drv.trace)
+        cur, done_cur, acked_cur = LL.epoch_state(events, steps_)
+        if c is not None and acked_cur and acked_cur[-1] == c and c in done_cur:
+            late = [x for x in cur if x <= c and x not in done_cur]
+            if late:
                 ck.violation({"kind": "monitor", "theorem": "C03_commit_le_processed (at the crash point)",
                               "what": "store holds %d; delivered but unprocessed at or below it: %r" % (c, late),
                               "cfg": cfg.line(), "events": C02.jsonable(events), "replay_op": "events"})
